@@ -27,6 +27,7 @@ RULE = (
 RULE += '; programs may re-seed the global random generator; identifiers of all scopes of a case must be pairwise distinct'
 RULE += '; records must pass through the Logger object given to the scope; further outermost scopes after the first tree was released'
 RULE += '; child loggers of the outermost scope names exist beforehand; UUID-spelled own trace ids'
+RULE += '; cases with the root logger at WARNING and verbose scope loggers'
 LEVEL_TEXT = (
     "Reference walk: for every log call exactly one record must be captured, on the expected logger (own, else nearest "
     "enclosing, else the one named after the outermost scope; root logger outside any scope) and no other, at the "
@@ -65,7 +66,7 @@ def run_case(case) -> Outcome:
             logging.getLogger(op["name"] + ".hvchild")
     root = logging.getLogger()
     old_level = root.level
-    root.setLevel(logging.DEBUG)
+    root.setLevel(logging.WARNING if case.get("root_warning") else logging.DEBUG)
     root.addHandler(_HANDLER)
     del SINK[:]
     try:
@@ -161,6 +162,13 @@ def run_case(case) -> Outcome:
             continue
         mine = [(r, msg, err) for r, msg, err in rendered if token in msg]
         pct = ms is not None and any("%" in ops[q]["name"] for q in [*lineage(tuple(ms)), tuple(ms)])
+        if case.get("root_warning") and e["level"] in ("debug", "info") and len(mine) == 0:
+            # the application keeps the ROOT logger at WARNING: a message below that which goes through a logger of the
+            # registry (no logger of its own up the chain, or outside any scope) is dropped by the logging configuration, not by
+            # the library. A scope that was given its own, more verbose Logger object must still get its DEBUG / INFO lines.
+            own = ms is not None and any(ops[q].get("logger") for q in [*lineage(tuple(ms)), tuple(ms)])
+            if not own:
+                continue
         if len(mine) == 0:
             out.violate("lost", f"C19.lost/no-record/{where}", f"token {token} level {e['level']}")
             continue
@@ -280,7 +288,8 @@ def strategy(tier):
 
         return {"body": [*first["body"], {"k": "yield"}, {"k": "gc"}, tree(1), {"k": "yield"}, {"k": "gc"}, tree(2)]}
 
-    return st.one_of(one_tree, one_tree, one_tree, one_tree.map(then_more_trees))
+    quiet_root = one_tree.map(lambda c: {**c, "root_warning": True})
+    return st.one_of(one_tree, one_tree, one_tree, quiet_root, one_tree.map(then_more_trees))
 
 
 def budget(tier):
